@@ -1153,10 +1153,11 @@ package bpmn
 // StartAll: the message loop is started once; every executable process is started and gets exactly one watcher,
 // counted in the wait group before the watcher exists.
 //@ func (*ProcessSet).StartAll
-//@   prop C18
+//@   prop C18 C07
 //@   requires [member-processes-are-distinct-objects] forall a int, b int :: off(ps.executes) <= a && a < b && b < off(ps.executes) + len(ps.executes) ==> at(ps.executes, a) != at(ps.executes, b)
 //@   requires forall a int :: off(ps.executes) <= a && a < off(ps.executes) + len(ps.executes) ==> at(ps.executes, a) != nil
-//@   ensures [message-loop-started-first] isSpawn(ev(old(evlen))) && evch(ev(old(evlen))) == code("(*ProcessSet).run")
+//@   ensures [message-loop-started-first-as-a-registered-sender-of-the-sets-tracer] isCall(ev(old(evlen))) && evch(ev(old(evlen))) == code("tracing|ITracer.RegisterSender") &&
+//@             evval(ev(old(evlen))) == old(ps.tracer) && isSpawn(ev(old(evlen) + 1)) && evch(ev(old(evlen) + 1)) == code("(*ProcessSet).run")
 //@   ensures [one-message-loop] count(Spawn, code("(*ProcessSet).run")) == old(count(Spawn, code("(*ProcessSet).run"))) + 1
 //@   ensures [a-watcher-per-started-process] result == nil ==>
 //@             count(Spawn, code("(*ProcessSet).tracerProcess")) == old(count(Spawn, code("(*ProcessSet).tracerProcess"))) + len(ps.executes)
@@ -1164,7 +1165,8 @@ package bpmn
 //@             count(Spawn, code("(*ProcessSet).tracerProcess")) - old(count(Spawn, code("(*ProcessSet).tracerProcess")))
 //@   loop 1 range ps.executes
 //@     invariant count(Spawn, code("(*ProcessSet).run")) == old(count(Spawn, code("(*ProcessSet).run"))) + 1 &&
-//@               isSpawn(ev(old(evlen))) && evch(ev(old(evlen))) == code("(*ProcessSet).run") && evlen > old(evlen)
+//@               isCall(ev(old(evlen))) && evch(ev(old(evlen))) == code("tracing|ITracer.RegisterSender") && evval(ev(old(evlen))) == old(ps.tracer) &&
+//@               isSpawn(ev(old(evlen) + 1)) && evch(ev(old(evlen) + 1)) == code("(*ProcessSet).run") && evlen > old(evlen) + 1
 //@     invariant count(Spawn, code("(*ProcessSet).tracerProcess")) == old(count(Spawn, code("(*ProcessSet).tracerProcess"))) + rk1
 //@     invariant count(WgAdd, mu(ps.wg)) == old(count(WgAdd, mu(ps.wg))) + rk1
 //@     invariant ps.executes == old(ps.executes) && preserved("elems([]*Process)")
@@ -1176,11 +1178,13 @@ package bpmn
 //@   prop C18 C07
 //@   ensures [at-most-one-cease-trace] count(Trace, CeaseProcessSetTrace) <= old(count(Trace, CeaseProcessSetTrace)) + 1
 //@   ensures [cease-trace-only-on-the-completion-signal-and-last] count(Trace, CeaseProcessSetTrace) == old(count(Trace, CeaseProcessSetTrace)) + 1 ==>
-//@             evlen >= old(evlen) + 2 && isTrace(ev(evlen - 1)) && is(evval(ev(evlen - 1)), CeaseProcessSetTrace) &&
-//@             isRecv(ev(evlen - 2)) && evch(ev(evlen - 2)) == ps.done
+//@             evlen >= old(evlen) + 3 && isTrace(ev(evlen - 2)) && is(evval(ev(evlen - 2)), CeaseProcessSetTrace) &&
+//@             isRecv(ev(evlen - 3)) && evch(ev(evlen - 3)) == ps.done
+//@   ensures [the-router-is-a-registered-sender-released-exactly-once-and-last @C07] count(Call, code("tracing|ISenderHandle.Done")) == old(count(Call, code("tracing|ISenderHandle.Done"))) + 1 &&
+//@             isCall(ev(evlen - 1)) && evch(ev(evlen - 1)) == code("tracing|ISenderHandle.Done")
 //@   loop 1 for
 //@     cancels ctx
-//@     invariant count(Trace, CeaseProcessSetTrace) == old(count(Trace, CeaseProcessSetTrace))
+//@     invariant count(Trace, CeaseProcessSetTrace) == old(count(Trace, CeaseProcessSetTrace)) && count(Call, code("tracing|ISenderHandle.Done")) == old(count(Call, code("tracing|ISenderHandle.Done")))
 //@     invariant ps.done == old(ps.done) && ps.mch == old(ps.mch)
 //@     invariant [a-process-not-yet-created-holds-no-lock] forall q *Process :: q > alloc ==> held(mu(q.complete)) == 0
 //@     iter ensures [at-most-one-instantiation-per-message] count(Spawn, code("(*ProcessSet).tracerProcess")) <= old(count(Spawn, code("(*ProcessSet).tracerProcess"))) + 1
